@@ -387,7 +387,7 @@ func enumLibCase(ec enumCase) vrun.Result {
 	ch.enumAt, ch.enumVal = ec.Leaf, ec.Const.Value
 	m := buildMessage(ch, ec.T)
 	where := fmt.Sprintf("%s{%s}.%s = %s(%d)", ec.T.Name(), ec.AStr, ec.LeafPath, ec.Const.Name, ec.Const.Value)
-	st, f := roundTrip(m, rtOpts{Judge: true, KeyEncodeErr: "enum:lib->wire:" + ec.Const.Name, KeyOther: "enum:lib->wire->lib:" + ec.Const.Name})
+	st, f := roundTrip(m, rtOpts{Judge: true, KeyEncodeErr: "enum:lib->wire:" + ec.Const.Name, KeyOther: "enum:lib->wire->lib:" + ec.Const.Name, EnumPath: ec.LeafPath})
 	if f != nil {
 		if strings.HasPrefix(f.Key, "enum:lib->wire:") {
 			f.Clause = "library enumeration constant " + ec.Const.Name + " has no wire mapping (the encoder refuses it)"
